@@ -87,7 +87,7 @@ func (c *Ctx) Decide(ok bool, rule, construct string, pos token.Pos, cases int, 
 }
 
 func (c *Ctx) Note(format string, a ...any) { c.Notes = append(c.Notes, fmt.Sprintf(format, a...)) }
-func (c *Ctx) SawFunc(name string)        { c.Funcs[name] = true }
+func (c *Ctx) SawFunc(name string)          { c.Funcs[name] = true }
 
 // ---------------------------------------------------------------------------
 // known findings
